@@ -77,6 +77,17 @@ def check(ctx):
                 "try_recv pops the queue only after try_wait() acquired a permit", rule="R-PAIR", pred_label="edge `sem.try_wait()` is true")
     ctx.guarded(MM + "::recv", Agg(r"std::sync::\w+::RecvTimeoutError", "Timeout", transitive=False), call_false(SEM + "wait_timeout"), "mpmc/timeout-only-without-permit",
                 "recv reports Timeout only when wait_timeout returned false (no permit consumed)", pred_label="edge `wait_timeout()` is false")
+    # a value pushed just before the last sender left is still delivered (drain before Disconnected; shared with C07)
+    from props import C07 as _c07
+    _c07.drain_rules(ctx)
+    # mpmc delivery rests on permit conservation of the semaphore when a receiver times out / is cancelled
+    handshake_waiter(ctx, "may::sync::semphore::Semphore::wait_timeout_impl", Call(r"may::sync::semphore::Semphore::post"), "mpmc/permit-handshake", "permit",
+                     lambda a: variant_of_call(re.escape(SB) + "::park", "Err")(a), exits_kind="ret+trigger")
+    handshake_waker(ctx, "may::sync::semphore::Semphore::wakeup_one", Call(r"may::sync::semphore::Semphore::post"), "mpmc/permit-waker", "permit")
+    # send always wakes
+    ctx.must_follow(MP + "::send", Call(MQ_MPSC + "push", on=MP + ".queue"), ao("take", MP + ".to_wake"), "mpsc/always-wakes", "every pushed value is followed by taking the waiting receiver")
+    ctx.must_follow(SP + "::send", Call(SPQ + "push", on=SP + ".queue"), ao("take", SP + ".wait_co"), "spsc/always-wakes", "every pushed value is followed by taking the waiting receiver")
+    ctx.must_follow(MM + "::send", Call(SEGQ + "push", on=MM + ".queue"), Call(r"may::sync::semphore::Semphore::post", on=MM + ".sem"), "mpmc/always-posts", "every pushed value gets its permit")
     # ---- R-WHO: consumer side only from Receiver methods
     for inner, recvty in ((MP, "may::sync::mpsc::Receiver"), (SP, "may::sync::spsc::Receiver")):
         allowed = set()
